@@ -996,10 +996,11 @@ class Interp:
     def _invoke(self, func, args, kwargs, node, fv):
         env = self.bind(func, args, kwargs, node)
         cls = func.cls
+        call_site = self.site(node) if self.frames else "<entry>"
         fr = Frame(func, func.module, env, self_cls=cls, closure=fv.closure)
         self.frames.append(fr)
         self.stack.append(func.qualname)
-        rec = [func.qualname, list(args), dict(kwargs), self.site(node) if len(self.frames) > 1 else "<entry>", None, dict(env)]
+        rec = [func.qualname, list(args), dict(kwargs), call_site, None, dict(env)]
         rec_args = {k: snapshot_terms(self, v) for k, v in env.items()}
         self.calls.append(rec)
         self.timeline.append(("call", func.qualname, rec))
